@@ -93,13 +93,9 @@ func Fetch(
 			return err
 		}
 
-		// Don't decompress non-regular files
+		// Non-regular files (i.e. symlinks) have no content; whatever follows such a header on the tape is covered by no signature, so don't hand it out
 		if !hdr.FileInfo().Mode().IsRegular() {
-			if _, err := io.Copy(dstFile, tr); err != nil {
-				return err
-			}
-
-			return nil
+			return dstFile.Close()
 		}
 
 		// Records without content (i.e. files that have been created but never written to) did not go through the pipeline
